@@ -363,13 +363,34 @@ func (a *KeyArg) Parse() error {
 	return nil
 }
 
+// parseDecimal parses a non-negative-integer-value as defined in
+// RFC 6020; Sec 12 "YANG ABNF Grammar":
+//
+//	non-negative-integer-value = "0" / positive-integer-value
+//	positive-integer-value     = (non-zero-digit *DIGIT)
+//
+// ie decimal digits only: no sign, no leading zeros, no base prefix and no
+// underscores (all of which strconv accepts with base 0).
+func parseDecimal(s string, bitSize int) (uint64, error) {
+	syntaxErr := &strconv.NumError{Func: "ParseUint", Num: s, Err: strconv.ErrSyntax}
+	if len(s) == 0 || (len(s) > 1 && s[0] == '0') {
+		return 0, syntaxErr
+	}
+	for i := 0; i < len(s); i++ {
+		if s[i] < '0' || s[i] > '9' {
+			return 0, syntaxErr
+		}
+	}
+	return strconv.ParseUint(s, 10, bitSize)
+}
+
 type UintArg struct {
 	arg
 	i uint
 }
 
 func (a *UintArg) Parse() error {
-	i, e := strconv.ParseUint(string(a.arg), 0, 32)
+	i, e := parseDecimal(string(a.arg), 32)
 	if e != nil {
 		return e
 	}
@@ -383,7 +404,13 @@ type IntArg struct {
 }
 
 func (a *IntArg) Parse() error {
-	i, e := strconv.ParseInt(string(a.arg), 0, 32)
+	// integer-value = ("-" non-negative-integer-value) /
+	//                  non-negative-integer-value
+	str := string(a.arg)
+	if _, e := parseDecimal(strings.TrimPrefix(str, "-"), 64); e != nil {
+		return e
+	}
+	i, e := strconv.ParseInt(str, 10, 32)
 	if e != nil {
 		return e
 	}
@@ -547,10 +574,14 @@ func (a *MaxValueArg) Parse() error {
 	if a.arg == "unbounded" {
 		i = &UintArg{i: ^uint(0)}
 	} else {
+		// max-value-arg = unbounded-keyword / positive-integer-value
 		i = &UintArg{arg: a.arg}
 		e := i.Parse()
 		if e != nil {
 			return e
+		}
+		if i.i == 0 {
+			return errors.New("invalid argument: " + string(a.arg))
 		}
 	}
 	a.i = i
@@ -653,7 +684,7 @@ func (a *LengthArg) Parse() error {
 			case "min":
 				l.Min = true
 			default:
-				i, e := strconv.ParseUint(bs[0], 0, 64)
+				i, e := parseDecimal(bs[0], 64)
 				if e != nil {
 					return e
 				}
@@ -665,7 +696,7 @@ func (a *LengthArg) Parse() error {
 			case "min":
 				l.Min = true
 			default:
-				i, e = strconv.ParseUint(bs[0], 0, 64)
+				i, e = parseDecimal(bs[0], 64)
 				if e != nil {
 					return e
 				}
@@ -675,7 +706,7 @@ func (a *LengthArg) Parse() error {
 			case "max":
 				l.Max = true
 			default:
-				i, e = strconv.ParseUint(bs[1], 0, 64)
+				i, e = parseDecimal(bs[1], 64)
 				if e != nil {
 					return e
 				}
@@ -751,10 +782,13 @@ func (a *FractionDigitsArg) Parse() error {
 	case 1:
 		fallthrough
 	case 2:
-		a.fdigits, err = strconv.Atoi(str)
+		// fraction-digits-arg = ("1" ["0" - "8"]) / "2" - "9"
+		var fd uint64
+		fd, err = parseDecimal(str, 8)
 		if err != nil {
 			return errors.New(ErrInval.Error() + ": " + err.Error())
 		}
+		a.fdigits = int(fd)
 	default:
 		return ErrInval
 	}
